@@ -2,6 +2,10 @@
 """Apply every seeded change to /repo, run its property's check, undo. Writes seeded/sweep.json."""
 import glob, json, os, subprocess, sys
 res = {}
+try:
+    res = json.load(open('/verif/seeded/sweep.json'))  # merge with earlier results
+except Exception:
+    res = {}
 only = set(sys.argv[1:])
 for d in sorted(glob.glob("/verif/seeded/C*")):
     sid = os.path.basename(d)
